@@ -1,12 +1,16 @@
 #!/bin/bash
-# seedround.sh <ID...>: validate and test the freshly delivered seeds in /tmp/seed-<ID> (one line each + first signature)
+# seedround.sh [-j N] <ID...>: validate and test the freshly delivered seeds in /tmp/seed-<ID> in parallel (one line each + first signature);
+# full per-seed output is kept in /tmp/seed-<ID>/seedtest.out
 cd /verif
-for id in "$@"; do
-  [ -s /tmp/seed-$id/patch.diff ] || { echo "$id: no patch"; continue; }
-  out=$(tools/seedtest.sh $id 2>&1)
+J=3; [ "$1" = -j ] && { J=$2; shift 2; }
+one() {
+  id="$1"
+  [ -s /tmp/seed-$id/patch.diff ] || { echo "$id: no patch"; return; }
+  out=$(tools/seedtest.sh $id 2>&1); echo "$out" > /tmp/seed-$id/seedtest.out
   res=$(echo "$out" | grep -m1 RESULT | sed 's/RESULT //')
   det=$(echo "$out" | grep -m1 '^==' | awk '{print $4, $5}')
   sig=$(echo "$out" | grep -m1 'sig=' | cut -c1-220)
   echo "$id | $res | $det |$sig"
-done
-rm -f /verif/replays/*.json
+}
+export -f one
+printf '%s\n' "$@" | xargs -P "$J" -I{} bash -c 'one {}'
